@@ -140,7 +140,8 @@ let () =
     (match !prev with
      | Some b when not same ->
          let may_remove = starts !call "CALL restrict" && starts !res "RES rc=0" in
-         let vs = hist_check b.pd cur.pd may_remove @ (if starts !call "CALL ud" then [] else ud_check (uds_of (extras_of b)) (uds_of (extras_of cur))) in
+         let dms = Stdlib.List.filter_map (fun (g, x) -> if x.x_dm then Some g else None) (extras_of b) in
+         let vs = hist_check b.pd cur.pd may_remove @ (if may_remove then dm_vanish_check b.pd cur.pd dms else []) @ (if starts !call "CALL ud" then [] else ud_check (uds_of (extras_of b)) (uds_of (extras_of cur))) in
          if vs = [] then print_endline "hist ok" else print_endline ("hist VIOLATION " ^ show_viols vs)
      | _ -> print_endline "hist ok");
     print_endline (if same then "same 1" else "same 0");
